@@ -111,7 +111,8 @@ def run_check(pid, tier, seed, table, no_proofs=False):
     kres = None
     if kpairs:
         from . import kernel
-        kres = kernel.run([(c, m) for _, c, m in kpairs][:(2500 if tier == "quick" else 40000)])
+        kres = kernel.run([(c, m) for _, c, m in kpairs][:(2500 if tier == "quick" else 40000)],
+                          fcap=(60 if tier == "quick" else 3000))
         for idx in kres["disagreements"][:5]:
             sn, c, m = kpairs[idx]
             corr_bad.append({"suite": sn + " (in-kernel)", "case": c, "line": enc.case_line(c),
@@ -198,7 +199,8 @@ def run_check(pid, tier, seed, table, no_proofs=False):
         "correspondence": {"cases": corr_cases, "disagreements": len(corr_bad), "max_ulp_distance": stats.max_ulp,
                            "floats_compared": stats.floats, "projection": [s[2] and sorted(s[2]) for s in spec["corr"]],
                            "suites": [s[0] for s in spec["corr"]], "distribution": dist},
-        "in_kernel_correspondence": kres and {"evaluated_by_vm_compute": kres["evaluated"], "files": kres["files"],
+        "in_kernel_correspondence": kres and {"evaluated_by_vm_compute": kres["evaluated"],
+                                              "evaluated_on_flocq_binary64": kres.get("evaluated_on_binary64", 0), "files": kres["files"],
                                               "disagreements": len(kres["disagreements"]), "error": kres["error"]},
         "monitor": {"evaluations": mon.evaluations if mon else 0, "distinct_nontrivial": mon.nontrivial if mon else 0,
                     "failures": len(mon_fail), "distribution": mon.dist if mon else {}, "search_evaluations": searched},
